@@ -331,6 +331,49 @@ def one_case(ctx, world, rng, idx, deadline):
                       lambda: w2({"carried": got, "expected": exp}))
             ctx.hit("completed_chains")
             ctx.hit("chain_len:%d" % len(hops))
+            # the same Patron is used again: a second request walks the same chain (only when the chain ends on the
+            # start server, the host the Patron is still connected to); it must again be followed to the end and its
+            # final response must carry exactly its own redirect responses
+            if ok and all(h["to"] == start["server"] for h in hops) and len(patron.responses) == 1:
+                tag2 = tag + "-again"
+                del world.seen[:]
+                patron.request(method=method, path=start["path"], qargs=_od(start["query"]), headers=_od([("X-Vf-Id", tag2)]))
+                r2 = 0
+                t1 = time.time()
+                while r2 < 3000 and len(patron.responses) < 2:
+                    r2 += 1
+                    try:
+                        patron.serviceAll()
+                    except Exception as ex:
+                        escaped = (exc_key(ex), "%s: %s" % (type(ex).__name__, str(ex)[:140]))
+                        break
+                    for sv in world.servers.values():
+                        sv["valet"].serviceAll()
+                    world.store.advanceStamp(0.001)
+                    if r2 > 40:
+                        time.sleep(0.0005)
+                    if time.time() - t1 > 3.0 or time.time() > deadline:
+                        break
+                seen2 = list(world.seen)
+                w3 = lambda extra=None: w2(dict({"second_request_seen": seen2, "responses": len(patron.responses)}, **(extra or {})))
+                ctx.hit("second_chain_on_same_patron")
+                ctx.check(not escaped, "redirect/second-request/exception/%s" % (escaped[0] if escaped else ""),
+                          "%s escapes Patron.serviceAll while following the redirects of a second request" % (escaped[1] if escaped else ""), w3)
+                if not escaped:
+                    got2 = [(x["server"], x["path"], parse_qsl(x["query"], keep_blank_values=True)) for x in seen2]
+                    exp2 = [(w["server"], w["path"], [tuple(q) for q in w["query"]]) for w in want]
+                    if len(patron.responses) < 2 and got2 == exp2[:len(got2)] and len(got2) < len(exp2) and time.time() - t1 > 3.0:
+                        # progress stopped without a wrong request: only a verdict when the redirect was received and not followed
+                        pass
+                    ctx.check(got2 == exp2, "redirect/second-request/not-followed-to-the-end",
+                              "the second request on the same Patron was seen as %d of %d requests of its chain" % (len(got2), len(exp2)), w3)
+                    if len(patron.responses) == 2:
+                        rs = patron.responses[1]
+                        got = [(r["status"], r["headers"].get("location")) for r in rs.get("redirects", [])]
+                        ctx.check(rs["status"] == 200 and bytes(rs["body"]) == final_body and got == exp,
+                                  "redirect/second-request/final-response-or-chain",
+                                  "the second final response is not the chain's 200 carrying exactly its own redirects",
+                                  lambda: w3({"carried": got, "expected": exp}))
         for h in hops:
             ctx.hit("form:" + h["form"])
             ctx.hit("status:%d" % h["status"])
@@ -376,6 +419,7 @@ def run(ctx):
     total = 16 * n
     ctx.floor("distinct_nontrivial", total // 2)
     ctx.floor("completed_chains", total // 2)
+    ctx.floor("second_chain_on_same_patron", total // 10)
     ctx.floor("downgrade_cases", total // 60)
     for f, d in (("abs", 4), ("abspath", 10), ("relpath", 10), ("queryonly", 20), ("netpath", 8)):
         ctx.floor("form:" + f, total // d)
